@@ -101,6 +101,9 @@ func Shrink(c *Case, class string) *Case {
 	return &best
 }
 
+// CurrentFile, if set, receives the descriptor of the case about to run.
+var CurrentFile string
+
 // PropSpec says how a property uses the sequential engine.
 type PropSpec struct {
 	Profiles []string
@@ -264,6 +267,10 @@ func RunProperty(col *core.Collector, prop, tier string, seed uint64, shard, nsh
 		if tier == "thorough" && i%50 == 0 {
 			nops = 2000 + rng.Intn(3000)
 		}
+		if CurrentFile != "" {
+			// pre-log: a crash or a hang of the cache is reproduced by regenerating this case
+			os.WriteFile(CurrentFile, []byte(fmt.Sprintf(`{"engine":"seq-regenerate","property":%q,"profile":%q,"seed":%d,"index":%d,"nops":%d}`, prop, prof.Name, seed, i, nops)), 0o644)
+		}
 		var cov Coverage
 		c, mm, err := Generate(prop, prof, seed, i, nops, &cov)
 		col.Eval(1)
@@ -372,6 +379,37 @@ func ReplayFile(col *core.Collector, path string) error {
 	if len(mm) > 0 {
 		fmt.Printf("mismatch at operation %d: %s\n", at, mm[0])
 		col.Violation(core.Violation{Property: w.Case.Prop, Signature: "seq:" + mm[0].Class + ":" + sigOf(mm[0].String()), Detail: mm[0].String(), Replay: path})
+	}
+	return nil
+}
+
+// Regenerate re-runs a case from its (property, profile, seed, index, nops) descriptor: the
+// pre-logged form that survives a crash or a hang of the cache.
+func Regenerate(col *core.Collector, data []byte, path string) error {
+	var d struct {
+		Property string `json:"property"`
+		Profile  string `json:"profile"`
+		Seed     uint64 `json:"seed"`
+		Index    int    `json:"index"`
+		Nops     int    `json:"nops"`
+	}
+	if err := json.Unmarshal(data, &d); err != nil {
+		return err
+	}
+	prof := Profiles[d.Profile]
+	if prof == nil {
+		return fmt.Errorf("unknown profile %q", d.Profile)
+	}
+	var cov Coverage
+	fmt.Printf("regenerating %s case %d (profile %s, %d operations); a crash or hang below is the witness\n", d.Property, d.Index, d.Profile, d.Nops)
+	c, mm, err := Generate(d.Property, prof, d.Seed, d.Index, d.Nops, &cov)
+	if err != nil {
+		return err
+	}
+	col.Eval(1)
+	if len(mm) > 0 {
+		fmt.Printf("mismatch after %d operations: %s\n", len(c.Ops), mm[0])
+		col.Violation(core.Violation{Property: d.Property, Signature: "seq:" + mm[0].Class + ":" + sigOf(mm[0].String()), Detail: mm[0].String(), Replay: path})
 	}
 	return nil
 }
